@@ -311,6 +311,29 @@ def else_if_chain(arms, with_call):
     return "\n".join(L) + "\n"
 
 
+def ptr_diamond(depth, width=2):
+    """helpers taking a pointer parameter, each calling the previous one `width` times"""
+    L = list(HDR3) + ["fn q0(p: ptr<function, f32>) { *p = *p + data[0] + aux.x; }"]
+    for k in range(1, depth + 1):
+        L.append("fn q%d(p: ptr<function, f32>) { %s }" % (k, " ".join(["q%d(p);" % (k - 1)] * width)))
+    L.append("@compute @workgroup_size(1) fn c0() { var acc: f32 = 0.0; q%d(&acc); data[1] = acc; }"
+             % depth)
+    return "\n".join(L) + "\n"
+
+
+def nested_array_type(depth, elem="vec4<f32>"):
+    """a member whose type is an array nested `depth` levels deep (3-line shader)"""
+    t = elem
+    for _ in range(depth):
+        t = "array<%s, 1>" % t
+    return ("struct Deep { a: %s }\n@group(0) @binding(0) var<storage, read_write> deep: Deep;\n"
+            "@compute @workgroup_size(1) fn c0() { }\n" % t)
+
+
+FAMILY_OPTS = {"nested_array_glam": {"mv": "glam"}, "nested_array_nalgebra": {"mv": "nalgebra"},
+               "nested_array_glam_bytemuck": {"mv": "glam", "bh": True, "bv": True},
+               "nested_array_rust_encase": {"en": True}}
+
 ERR_FAMILIES = {"err_sparse_group": "NonConsecutiveBindGroups"}
 
 
@@ -333,6 +356,15 @@ def families(tier):
     for d in [2, 4, 8, 12, 16, 24, 32]:
         F.append(("value_lattice_w3", d, lattice(d, 3, True)))
         F.append(("void_lattice_w4", d, lattice(d, 4, False)))
+    for d in [2, 4, 8, 12, 16, 24, 32, 48, 64]:
+        F.append(("ptr_param_diamond_w2", d, ptr_diamond(d)))
+    for d in [2, 4, 8, 16, 24, 32]:
+        F.append(("ptr_param_diamond_w3", d, ptr_diamond(d, 3)))
+    for d in [1, 2, 4, 8, 16, 24, 32, 48, 64, 100]:
+        F.append(("nested_array_glam", d, nested_array_type(d)))
+        F.append(("nested_array_nalgebra", d, nested_array_type(d, "mat3x3<f32>")))
+        F.append(("nested_array_glam_bytemuck", d, nested_array_type(d, "vec4<u32>")))
+        F.append(("nested_array_rust_encase", d, nested_array_type(d, "vec3<f32>")))
     for d in [2, 4, 8, 12, 16, 24, 32, 48, 64]:
         F.append(("pure_diamond_w2", d, pure_diamond(d)))
     for d in [2, 4, 8, 12, 16, 24, 32]:
@@ -405,11 +437,12 @@ def families(tier):
 MEM_LIMIT = 6 << 30
 
 
-def run_case(binp, idx, src, workdir, fmt=False):
+def run_case(binp, idx, src, workdir, fmt=False, opt=None):
     jp = os.path.join(workdir, "job%d.jsonl" % idx)
     rp = os.path.join(workdir, "res%d.jsonl" % idx)
     with open(jp, "w") as f:
-        f.write(json.dumps({"id": idx, "source": src, "opt": {"fmt": True} if fmt else {},
+        f.write(json.dumps({"id": idx, "source": src,
+                            "opt": dict(opt or {}, **({"fmt": True} if fmt else {})),
                             "ref": True}) + "\n")
     if os.path.exists(rp):
         os.remove(rp)
@@ -489,7 +522,8 @@ def main(tier, replay, t0):
             if name in dead_families:
                 results[i] = {"status": "skipped_after_family_violation"}
                 continue
-            p, rp = run_case(binp, i, src, work, fmt=name.endswith("_rustfmt"))
+            p, rp = run_case(binp, i, src, work, fmt=name.endswith("_rustfmt"),
+                             opt=FAMILY_OPTS.get(name))
             running.append((i, p, rp, time.time()))
         reap(True)
         for i, r in list(results.items()):
